@@ -29,7 +29,14 @@ type c19Case struct {
 	Count int       `json:"count"` // executions of the test per process
 	Mode2 Mode      `json:"mode2"` // read-only replay mode
 	Upd2  *bool     `json:"update_option2"`
+	// Sibling (no fixed Filename): another test with a related name (an extension of the name, or a long name that differs
+	// from Test only in its last bytes) stores ONE standalone snapshot in the same directory before Test runs: its file is
+	// its own, in every process
+	Sibling string `json:"sibling_test,omitempty"`
 }
+
+const siblingValue = "the sibling's value"
+
 
 var hostileValues = []string{"\ufeff", "\ufeffwith bom", "", "\r", "a\r\nb\r\n", "line\r", "---", "a\n---\nb", "/-/-/-/", "\x00", "\xff\xfe", "[TestA - 1]\nx\n---\n", "\n", "\n\n", "trailing\n", " ", "tab\t", "é", "a\rb", "---\r\n---"}
 
@@ -136,6 +143,28 @@ func genC19(t *rapid.T) c19Case {
 		}
 		c.Calls = append(c.Calls, cc)
 	}
+	if c.Cfg.Filename == "" {
+		switch rapid.IntRange(0, 9).Draw(t, "sibling") {
+		case 0, 1:
+			c.Sibling = c.Test + rapid.SampledFrom([]string{"B", "0", "/s", "_", "#01"}).Draw(t, "siblingsuffix")
+		case 2:
+			if c.Cfg.Ext == "" {
+				// two names of 246 bytes that share their first 236: with `_<k>.snap` the file names stay below 255 bytes
+				stem := "TestLong/" + strings.Repeat("segment_", 29)[:227]
+				c.Test, c.Sibling = stem+"_200_ok_xy", stem+"_404_ko_xy"
+				var keep []c19Call
+				for _, cc := range c.Calls {
+					if cc.Call.API != "sjson" && len(keep) < 9 {
+						keep = append(keep, cc)
+					}
+				}
+				if len(keep) == 0 {
+					keep = []c19Call{{Call: Call{API: "ssnap", Vals: []Val{strVal("long name")}}}}
+				}
+				c.Calls = keep
+			}
+		}
+	}
 	return c
 }
 
@@ -180,6 +209,17 @@ func checkC19(c c19Case) error {
 	// process 1: record
 	newProcess(Mode{})
 	cfg := c.Cfg.build(root)
+	siblingFile := ""
+	if c.Sibling != "" && c.Cfg.Filename == "" {
+		siblingFile = c.Cfg.standalonePath(c.Sibling, 1, false)
+		expectFiles[siblingFile] = true
+		fs := newFakeT(c.Sibling)
+		r := Call{API: "ssnap", Vals: []Val{strVal(siblingValue)}}.invoke(cfg, fs)
+		fs.finish()
+		if out, err := outcomeOf(r); err != nil || out != oAdded {
+			return fmt.Errorf("recording the sibling test %q: outcome %q err %v errors=%q", clip(c.Sibling), out, err, clipAll(r.Errors))
+		}
+	}
 	ft := newFakeT(c.Test)
 	for i, cc := range c.Calls {
 		r := cc.Call.invoke(cfg, ft)
@@ -297,6 +337,9 @@ func checkC19(c c19Case) error {
 			return fmt.Errorf("update process wrote %q although its value did not change", slots[i].file)
 		}
 	}
+	if siblingFile != "" && after[siblingFile].Data != siblingValue {
+		return fmt.Errorf("the file of the sibling test %q holds %q after the runs of %q, want its own value %q", clip(c.Sibling), clip(after[siblingFile].Data), clip(c.Test), siblingValue)
+	}
 	return nil
 }
 
@@ -319,6 +362,13 @@ func keysOfState(m dirState) []string {
 func classifyC19(c c19Case) ([]string, bool) {
 	var cls []string
 	nt := false
+	if c.Sibling != "" && c.Cfg.Filename == "" {
+		cls = append(cls, "sibling_test_in_the_same_directory")
+		if len(c.Test) > 200 {
+			cls = append(cls, "names_of_246_bytes_that_differ_in_their_last_bytes")
+		}
+		nt = true
+	}
 	for _, cc := range c.Calls {
 		if cc.Call.API == "ssnap" {
 			txt := cc.Call.snapText()
